@@ -107,7 +107,7 @@ class Prop:
             make_view = ninf > 0 and r.random() < (0.5 if flavour == "views" else 0.12)
             fault = r.random() < 0.1
             item = self._rand_item(r, shape, ninf, finite_only=make_view, flavour=flavour, fault=fault)
-            ops.append(["idx", list(tgt), item])
+            ops.append(["idx", list(tgt), item, len(ops)])
             if make_view and nviews < 6:
                 try:
                     vshape = list(np.empty(shape)[_item_to_py(item)].shape)
@@ -295,7 +295,7 @@ class Prop:
         for opi, op in enumerate(case["ops"]):
             if violation:
                 break
-            _, tgt, item_spec = op
+            _, tgt, item_spec, label = op
             tgt = tuple(tgt)
             if tgt not in targets:
                 continue
@@ -365,7 +365,7 @@ class Prop:
                         fail("view-shape", f"{desc}: view shape {V.shape}/{V.n_infinite}, numpy gives {Dv.shape[:Dv.ndim - ninf]}/{ninf}")
                     vkind = "scalarview" if all(isinstance(c, int) for c in item) else "packed"
                     anc = packed_anc + (((Dv, Dv.ndim - ninf),) if vkind == "packed" else ())
-                    targets[("v", opi)] = (V, Dv, Dv.ndim - ninf, ninf, vkind, anc)
+                    targets[("v", label)] = (V, Dv, Dv.ndim - ninf, ninf, vkind, anc)
                     all_series.append(V)
                     bump("op_view_create")
                     if kind != "root":
